@@ -127,6 +127,9 @@ Section Generic.
           change s3 with (fst (s3, o2)). rewrite <- Es. apply Inv_schedule_next.
           unfold chain. rewrite Hp2, Ha2, Hi2, Hi, Ha. reflexivity.
         * unfold Inv, chain; simpl. rewrite Hp, Hi, Ha. simpl. fin.
+        * match goal with |- context [schedule_next ?x] => destruct (schedule_next x) as [s2 o] eqn:Es end.
+          simpl. change s2 with (fst (s2, o)). rewrite <- Es. apply Inv_schedule_next.
+          unfold chain; simpl. rewrite Hp, Hi, Ha. reflexivity.
       + unfold Inv, chain; simpl. rewrite Hp, Hi, Ha. simpl. fin.
     - (* completion of the awaited callback *)
       destruct (s_inflight s) as [|n] eqn:Ei; simpl; [exact HI|].
@@ -212,6 +215,10 @@ Section Generic.
           destruct (schedule_next x) as [s3 o2] end.
         simpl in *. rewrite Hi. simpl. rewrite depth_walk_app, Hd1. simpl. rewrite Hd2, Hn, Hi1. reflexivity.
       + simpl. rewrite Hi. reflexivity.
+      + match goal with |- context [schedule_next ?x] =>
+          pose proof (depth_schedule_next x 0) as Hd; pose proof (schedule_next_counts x) as (_ & Hn & _);
+          destruct (schedule_next x) as [s2 o] end.
+        simpl in *. rewrite Hi. simpl. rewrite Hd. rewrite Hn. rewrite Hi. reflexivity.
     - destruct (s_inflight s) as [|n] eqn:Ei; [simpl; rewrite Ei; reflexivity|].
       match goal with |- context [schedule_next ?x] =>
         pose proof (depth_schedule_next x n) as Hd; pose proof (schedule_next_counts x) as (_ & Hn & _);
